@@ -269,7 +269,9 @@ def run_history(hist, acc):
                     # a device that is absent from this snapshot legitimately starts afresh later
                     prev_out[fn] = {k: v for k, v in prev_out[fn].items() if k in snap}
                 wt = total(want, nf)
-                if tuple(got) != wt and tuple(got) != total(want_b, nf):
+                if got is None:
+                    viols.append((f"total_mismatch{feature}", ctx + f" at op#{idx} got=None although devices are listed; want={wt}"))
+                elif tuple(got) != wt and tuple(got) != total(want_b, nf):
                     viols.append((f"total_mismatch{feature}", ctx + f" at op#{idx} got={tuple(got)} want={wt}"))
         w.clear_all()
     # wrap events in the history (for the non-trivial rule)
@@ -329,6 +331,7 @@ def gen_random(rng):
     names = {"net": ["eth0", "lo", "wlan0", "br-9f", "veth1:2"], "disk": ["sda", "sda1", "sdb", "nvme0n1", "nvme0n1p1", "dm-0"]}
     hist = []
     cur = {"net": {}, "disk": {}}
+    last_snap = {}
     use = {fn: rng.sample(names[fn], rng.randrange(1, len(names[fn]) + 1)) for fn in names}
     perdisk_modes = rng.choice([[True], [True], [True, False]])
     for _ in range(rng.randrange(3, 14)):
@@ -340,7 +343,10 @@ def gen_random(rng):
             continue
         snap = {}
         style = rng.random()
-        for kidx, k in enumerate(use[fn]):
+        order = list(enumerate(use[fn]))
+        if rng.random() < 0.3:
+            rng.shuffle(order)          # the kernel lists the same devices in another order (re-plugged NIC, renumbered disks)
+        for kidx, k in order:
             present = rng.random() < (0.85 if style > 0.1 else 0.0)
             if not present:
                 cur[fn].pop(k, None)
@@ -366,6 +372,10 @@ def gen_random(rng):
                 vals[2] *= 512
                 vals[3] *= 512
             snap[k] = vals
+        if last_snap.get(fn) and rng.random() < 0.15:
+            # idle devices: the kernel's numbers have not moved since the previous call
+            snap = {k_: list(v_) for k_, v_ in last_snap[fn].items()}
+        last_snap[fn] = snap
         nowrap = rng.random() < 0.85
         per = True if fn == "net" and rng.random() < 0.8 else rng.choice(perdisk_modes if fn == "disk" else [True, False])
         call = ["call", fn, snap, nowrap, per]
